@@ -39,7 +39,7 @@ INFO = dict(
          'time-out of a queued request = what the real ClientTimeoutSink does: posting TimeoutError into its sink stack'],
   assumptions=['A1', 'pre-states = those satisfying the stated invariant (checked inductive); min_watermark <= max_watermark, max_watermark >= 1'],
 )
-EXPECT_COVERS = ['arrival-while-connection-opening', 'arrive-cached', 'arrive-new', 'arrive-queued', 'arrive-max-waiters', 'arrive-dead-cached-discarded',
+EXPECT_COVERS = ['timeout-while-connection-opening', 'arrival-while-connection-opening', 'arrive-cached', 'arrive-new', 'arrive-queued', 'arrive-max-waiters', 'arrive-dead-cached-discarded',
                  'release-to-waiter', 'release-skips-timed-out', 'release-cached', 'release-closed', 'release-dead-closes-pool',
                  'hist-two-completions-one-slice']
 
@@ -143,7 +143,7 @@ def jobs(tier):
         for k in range(w):
           js.append(dict(name='timeout-a%d-b%d-w%d-k%d' % (a, b, w, k), op='timeout', a=a, b=b, w=w, k=k, hi=hi, cost=1))
   js.append(dict(name='open', op='open', hi=hi, cost=1))
-  js.append(dict(name='slow-open-n3', op='slowopen', n=3, hi=hi, cost=3000, shards=8, shard_depth=3))
+  js.append(dict(name='slow-open-n3', op='slowopen', n=3, hi=2 if tier == 'quick' else hi, cost=3000, shards=16, shard_depth=4))
   kk = 6 if tier == 'quick' else 10
   js.append(dict(name='history-k%d' % kk, op='history', k=kk, hi=3, cost=5000,
                  shards=16 if tier == 'quick' else 128, shard_depth=8 if tier == 'quick' else 14))
@@ -387,17 +387,41 @@ def slow_open(job):
     st = ClientMessageSinkStack(); t = Terminal(); st.Push(t); terms.append((st, t))
     if any(c.opened and not c.reqs and not c.closed for c in prov.created): cover('arrival-while-connection-opening')
     pool.AsyncProcessRequest(st, MethodCallMessage(None, 'm', (), {}), None, None)
+  def expire(i):
+    # what the real ClientTimeoutSink does when the call's deadline strikes
+    if i < len(terms) and terms[i][0].Any():
+      if any(c.opened and not c.reqs and not c.closed for c in prov.created): cover('timeout-while-connection-opening')
+      for c in prov.created:
+        if c.reqs and c.reqs[-1] is terms[i][0]: c.active -= 1       # the connection stops serving this request
+      terms[i][0].AsyncProcessResponseMessage(MethodReturnMessage(error=STimeout()))
   for i in range(job['n']):
     at = fresh_real('arrive_at%d' % i, 0, 4)
     gevent.spawn_later(at, arrive, i)
+    if i == 0:            # the first request has a (symbolic) deadline
+      to = fresh_real('timeout_after%d' % i, 0, 4)
+      gevent.spawn_later(at + to, expire, i)
   gevent.sleep(10)
   settle()
+  # traffic stops: every request that is being served gets its reply
+  for c in list(prov.created):
+    for r in list(c.reqs):
+      if r.Any():
+        c.active -= 1
+        r.AsyncProcessResponseMessage(MethodReturnMessage(return_value=1)); settle()
+  settle()
+  lent = [c for c in prov.created if not c.closed and any(r.Any() for r in c.reqs)]
+  idle_conns = [c for c in prov.created if not c.closed and not any(r.Any() for r in c.reqs)]
+  check('slowopen.no-connection-lost', all(any(x is c for x in pool._cache) for c in idle_conns))
+  check('slowopen.idle-retains-at-most-min', len(live(S)) <= mn if not lent and not pool._waiters else True)
   check('slowopen.connections-never-exceed-max', live_max[0] <= mx)
   check('slowopen.size-at-most-max', pool._current_size <= mx)
   check('slowopen.size-equals-live', pool._current_size == len(live(S)))
   check('slowopen.no-double', not any(c.double for c in prov.created))
-  for (st, t) in terms:
+  for i, (st, t) in enumerate(terms):
     served = [c for c in prov.created if any(r is st for r in c.reqs)]
     queued = [x for x in pool._waiters if x[0] is st]
-    check('slowopen.each-request-one-outcome', len(served) + len(queued) + len(t.got) == 1)
+    if any(isinstance(m.error, STimeout) for (_, m) in t.got if m is not None and getattr(m, 'error', None) is not None):
+      check('slowopen.timed-out-request-completed-once', len(t.got) == 1)
+    else:
+      check('slowopen.each-request-one-outcome', len(served) + len(queued) + len([g for g in t.got if getattr(g[1], 'error', None) is not None]) >= 1 and len(t.got) <= 1)
   check('no-greenlet-error', not vtime.ERRORS)
